@@ -3,7 +3,7 @@ import json
 import os
 import re
 
-from . import common, ip_checks, jun_checks
+from . import common, ip_checks, jun_checks, iptext_checks
 from .common import LEAN, VERIF, Infra
 
 TRUSTED_BASE = [
@@ -116,8 +116,18 @@ def _r_c18_empty():
         return True
 
 
-FINDING_MATCHERS = {"C18-empty-plaintext-short-salt": _m_c18_empty}
-FINDING_REPLAYS = {"C18-empty-plaintext-short-salt": _r_c18_empty}
+def _m_c06_dotted(case):
+    return case.get("signature") == "v6-dotted-tail"
+
+
+def _r_c06_dotted():
+    from netconan.ip_anonymization import IpV6Anonymizer, anonymize_ip_addr
+    out = anonymize_ip_addr(IpV6Anonymizer("s"), "::ffff:1.2.3.4")
+    return out.endswith(".2.3.4")
+
+
+FINDING_MATCHERS = {"C18-empty-plaintext-short-salt": _m_c18_empty, "C06-v6-dotted-tail": _m_c06_dotted}
+FINDING_REPLAYS = {"C18-empty-plaintext-short-salt": _r_c18_empty, "C06-v6-dotted-tail": _r_c06_dotted}
 
 
 def setup():
@@ -163,5 +173,11 @@ PROPS = {
     "C18": {"modules": ["Netconan.Props.C18"], "scopes": [jun_checks.scope],
             "checker_cmd": "cd lean && lake build Netconan.Props.C18 && lake env lean <#print axioms audit>", "rule": JUN_RULE,
             "assumptions": ["FAMILY/ENCODING/EXTRA/_fixedc tables are regenerated from the live module on every run; the functions are modelled by hand and tied by correspondence"]},
+    "C06": {"modules": ["Netconan.Props.C06"], "scopes": [iptext_checks.scope, iptext_checks.io_scope],
+            "checker_cmd": "cd lean && lake build Netconan.Props.C06 && lake env lean <#print axioms audit>",
+            "rule": "exhaustive strings up to length 4 (quick) / 5 (thorough) over the boundary alphabets '025.a /', '1f:g /', '1f:.% '; structured dotted "
+                    "and colon-separated tokens with near-miss parts and delimiters; every h::l split shape; realistic multi-token lines; "
+                    "distinct_nontrivial counts distinct (family, first 12 characters) keys",
+            "assumptions": ["the regular expressions are modelled by the pinned translation (CPython's own parser) run by the Lean engine; engine = _sre is validated by this correspondence, not proved"]},
     "C17": ip_prop("C17", [ip_checks.core_scope, ip_checks.cli_scope, ip_checks.big_history]),
 }
